@@ -367,7 +367,7 @@ fn run(tier: Tier, states: &mut u64) -> Sink {
     let confs = vcheck::confs(tier);
     let mut jobs = vec![];
     for f32_ in [false, true] {
-        for len in 2..=tier.pick(3, 5) {
+        for len in 2..=tier.pick(3, 6) {
             for idx in 0..(POS.len() as u64).pow(len as u32) {
                 jobs.push(Job::S(nth_sequence(POS.len(), len, idx).into_iter().map(|i| POS[i]).collect(), f32_));
             }
@@ -399,7 +399,7 @@ fn run(tier: Tier, states: &mut u64) -> Sink {
         Job::S(x, false) => judge_sample::<f64>(x, &confs, s),
         Job::S(x, true) => judge_sample::<f32>(x, &confs, s),
     });
-    let depth = tier.pick(3, 4);
+    let depth = tier.pick(3, 5);
     let mut st = 0;
     st += search::<Geometric<f64>>(depth, &mut s).0;
     st += search::<Harmonic<f64>>(depth, &mut s).0;
@@ -444,7 +444,7 @@ fn main() {
     s.sample(json!({"check":"sample","type":"f64","xs":[0.25,1000.0,3.7],"kind":"Upper","level":0.9,"oracle":"Geometric = exp(Arithmetic::ci(ln x)); Harmonic upper = 1/(Arithmetic lower one-sided bound of 1/x)"}));
     s.sample(json!({"check":"state","reg":"Harmonic<f64>","history":[0.5,3.7],"act":{"Extend":[2.0,-0.0,0.5]},"expect":"Err(NonPositiveValue(-0.0)); state == history + [2.0], bit-exact Debug"}));
     s.sample(json!({"check":"state","reg":"Geometric<f32>","history":[],"act":{"Append":"-inf"},"expect":"Err(NonPositiveValue(-inf)), Debug rendering unchanged"}));
-    rep.rule = format!("values: every sequence of length 2..{} over {:?} (quick: length 4 over a 5-value sub-alphabet), near-constant and constant triples, x confidences x f64,f32, Geometric/Harmonic ci and ci_mean against the real Arithmetic path on ln x / 1/x; state preservation: BFS to depth {} over real Geometric/Harmonic registers (f64, f32) with actions append(v) for 3 good and 6 non-positive values (0, -0, -1, -inf, -subnormal, -1e300) and extend(chunk) with a non-positive value at every position of chunks of length <=3; distinct by (type, mean, kind) and (register, action class, outcome)", tier.pick(3, 5), POS, tier.pick(3, 4));
+    rep.rule = format!("values: every sequence of length 2..{} over {:?} (quick: length 4 over a 5-value sub-alphabet), near-constant and constant triples, x confidences x f64,f32, Geometric/Harmonic ci and ci_mean against the real Arithmetic path on ln x / 1/x; state preservation: BFS to depth {} over real Geometric/Harmonic registers (f64, f32) with actions append(v) for 3 good and 6 non-positive values (0, -0, -1, -inf, -subnormal, -1e300) and extend(chunk) with a non-positive value at every position of chunks of length <=3; distinct by (type, mean, kind) and (register, action class, outcome)", tier.pick(3, 6), POS, tier.pick(3, 5));
     rep.assume("harmonic bounds are claimed only where the reciprocal-space bound they come from is strictly positive (the property's own restriction); other cases are counted as skipped");
     rep.assume("the Debug rendering (all private fields, round-trip float formatting) is used as an injective state key");
     rep.require(s.distinct() >= 20, "fewer than 20 distinct classes: vacuous");
